@@ -39,6 +39,12 @@ TRUSTED = [
     "Python builtins int(str, 10), float(str), float.is_integer, str(int), repr(float) are observed by the harness and passed to the model as annotations (modelled, not verified)",
 ]
 
+EXPLANATION = ("Theorems (Props/C07*.lean) are about the model of the code WITH proposed_fixes/C07-A1-A5.patch; the unchanged tree falsifies "
+               "int_full_range (A1), variable_sound/literal_variable_equiv (A2), arguments_sound (A3), rejects_structurally_wrong_json (A4) and "
+               "rejects_unknown_field on the literal route (A5) and the direct oracle reports a replay for each. Observed, not C07: an object literal at a "
+               "custom-scalar argument makes graphql_blocking raise AttributeError (ScalarType.parse_literal reads node.value) - counted under "
+               "input_distribution 'pipeline-internal:*'.")
+
 SCALARS_PY = REPO / "src/py_gql/schema/scalars.py"
 FUEL = 400
 
